@@ -251,8 +251,9 @@ func (s *Solver) CheckWith(t *Term) Result {
 			return RUnsat
 		}
 	}
+	name := s.emit(t) // definitions stay in the enclosing scope and are reused
 	s.Push()
-	s.Assert(t)
+	s.send("(assert " + name + ")")
 	r := s.Check()
 	s.Pop()
 	return r
